@@ -373,7 +373,7 @@ class DispatcherOracle:
 
 
 LD = [("data", 4)]
-for n in (1, 2, 3):
+for n in (1, 2, 3, 4):
     nm = f"Arbiter(n={n})"
     def mk_arb(nm=nm, n=n):
         def f():
@@ -384,10 +384,10 @@ for n in (1, 2, 3):
             m.slave = stream.Endpoint(LD)
             m.submodules.arb = packet.Arbiter(list(m.masters), m.slave)
             return m
-        return MultiStreamHarness(nm, f, [f"m{i}" for i in range(n)], ["slave"], ArbiterOracle(), maxpkt=2 if n == 3 else 3,
-                                  idbits=1 if n == 3 else 2)
+        return MultiStreamHarness(nm, f, [f"m{i}" for i in range(n)], ["slave"], ArbiterOracle(), maxpkt=2 if n >= 3 else 3,
+                                  idbits=1 if n >= 3 else 2)
     reg(nm, "quick", mk_arb)
-for n, one_hot in ((1, False), (2, False), (2, True), (3, False), (3, True)):
+for n, one_hot in ((1, False), (2, False), (2, True), (3, False), (3, True), (4, False), (5, False)):
     nm = f"Dispatcher(n={n},one_hot={one_hot})"
     def mk_disp(nm=nm, n=n, one_hot=one_hot):
         def f():
@@ -400,7 +400,7 @@ for n, one_hot in ((1, False), (2, False), (2, True), (3, False), (3, True)):
             m.sel = d.sel
             return m
         has_sel = not (n == 1 and not one_hot)
-        nsel = (1 << n) if one_hot else (2 if n <= 2 else 4)
+        nsel = (1 << n) if one_hot else (2 if n <= 2 else (4 if n <= 4 else 8))
         return MultiStreamHarness(nm, f, ["master"], [f"s{i}" for i in range(n)], DispatcherOracle(n, one_hot, has_sel), maxpkt=3,
                                   ctrl=[("sel", range(nsel))] if has_sel else None, liveness=False)
     reg(nm, "quick" if n < 3 or not one_hot else "thorough", mk_disp)
